@@ -1,6 +1,7 @@
 use crate::core::*;
 
 pub mod c01;
+pub mod localzone;
 pub mod c02;
 pub mod c03;
 pub mod c04;
@@ -28,6 +29,12 @@ pub mod walk;
 pub type PropResult = Result<(PropMeta, RunOutput), String>;
 
 pub fn run(ctx: &Ctx) -> PropResult {
+    let r = run_inner(ctx);
+    localzone::cleanup();
+    r
+}
+
+fn run_inner(ctx: &Ctx) -> PropResult {
     match ctx.prop {
         "C01" => c01::run(ctx),
         "C02" => c02::run(ctx),
